@@ -64,6 +64,10 @@ Section Machine.
   Variable branch_ok : bytes -> bool.   (* NewKeyFromString(acct), Child(ExternalBranch), Child(InternalBranch) all succeed *)
   Variable derive_sk : bytes -> Z -> Z -> option sk.
   Variable sign : sk -> bytes -> sig.
+  (* [zfix] = true: the repaired code (/repo commit 34102a8: safelyCheckPassword zeroes the master
+     key only when the manager is locked); false reproduces the code as first found, which zeroed
+     it also while unlocked — after which getMnemonic, relying on the unlocked state, failed. *)
+  Variable zfix : bool.
 
   (* the mutable part of the AddrManager *)
   Record amstate := mkSt {
@@ -95,11 +99,12 @@ Section Machine.
       if bytes_eqb (digest k) (c_digest cfg) then (None, set_mk st k)
       else (Some EInvalidPassphrase, set_mk st k).
 
-  (* safelyCheckPassword: zeroes the master key after a successful check, locked or not *)
+  (* safelyCheckPassword: zeroes the master key after a successful check — when locked (where
+     checkPassword has just derived it); as first found also when unlocked *)
   Definition safely_check (st : amstate) (p : bytes) : option uerr * amstate :=
     match check_password st p with
     | (Some e, st') => (Some e, st')
-    | (None, st') => (None, set_mk st' zero32)
+    | (None, st') => (None, if zfix && s_unlocked st' then st' else set_mk st' zero32)
     end.
 
   Fixpoint lookup_sk (a : addr) (l : list (addr * sk)) : option sk :=
